@@ -113,12 +113,19 @@ inductive Act where
   | rawEvent (dest : Nat) (et : EType)    -- `circuit.findblock(dest).event(et)` (any object as type)
   deriving Repr, Inhabited
 
+/-- the value a scripted `cond_EVENT` callback returns after its statements -/
+inductive CondVal where
+  | const (c : Bool)         -- `return c`
+  | item (key : String)      -- `return fsm_event_data.get().get(key)`  (truthiness)
+  deriving Repr, Inhabited, DecidableEq
+
 inductive BKind where
   | probe      -- scripted block: events a, b (no requirements), need (requires `value`), ping (no-op)
   | input      -- edzed.Input
   | counter    -- edzed.Counter
   | outfunc    -- edzed.OutputFunc: sends on_success / on_error events from inside its handler
   | fsm        -- a table-driven edzed.FSM subclass (states s0, s1, …; scripted entry / exit actions)
+  | repeat     -- edzed.Repeat: forwards the event from inside its handler, re-sends it from its main task
   deriving Repr, Inhabited, DecidableEq
 
 /-- the user function of an OutputFunc -/
@@ -152,6 +159,11 @@ structure Blk where
   onExit : List (List Edge) := []               -- on_exit_STATE events
   onNotrans : List Edge := []
   timed : List (Option (EType × Nat)) := []     -- TIMERS: timed event and duration (0 = zero delay), by state
+  conds : List (String × List Act × CondVal) := []   -- fsm: cond_EVENT callbacks (user code: a script, then a value)
+  -- repeat: `Repeat(dest=, etype=, count=)`; `_repeated_event = Event(dest, etype)` (no filters)
+  rdest : Nat := 0
+  retype : EType := .name "put"
+  rcount : Option Nat := Option.none
   deriving Repr, Inhabited
 
 structure Circ where
@@ -198,9 +210,11 @@ structure St where
   trace : List TItem             -- ghost, newest first
   fstate : Nat → Option Nat := fun _ => Option.none      -- `FSM._state` (none = UNDEF)
   fsmActive : Nat → Bool := fun _ => false                -- `FSM._fsm_event_active`
-  nextEv : Nat → Option Nat := fun _ => Option.none       -- `FSM._next_event` (its new state)
+  nextEv : Nat → Option (Nat × Data) := fun _ => Option.none  -- `FSM._next_event` (its new state and its data)
   timer : Nat → Option EType := fun _ => Option.none      -- `FSM._active_timer` (its timed event)
   timersEnabled : Bool := true                            -- `FSM._timers_enabled` (start() … stop())
+  rcur : Nat → Option (Data × Nat) := fun _ => Option.none -- Repeat: the data last queued for the main task
+                                                          -- and the number of repetitions sent so far
 
 def upd {α : Type} (f : Nat → α) (i : Nat) (v : α) : Nat → α := fun j => if j = i then v else f j
 
@@ -238,6 +252,7 @@ def handlersOf : BKind → HTable
   | .counter => Gen.counterHandlers
   | .outfunc => Gen.outputFuncHandlers
   | .fsm => []          -- an FSM class has no `_event_NAME` methods: everything goes to `_event`
+  | .repeat => []       -- Repeat has no `_event_NAME` methods either: `Repeat._event`
 
 /-- `type(self)._ct_handlers.get(etype)` for a resolved event type -/
 def lookupHandler (k : BKind) : EType → Option (String × List String × List String × Bool)
@@ -393,12 +408,14 @@ def handlerBody (dlv : Dlv) (b : Blk) (d : Nat) (s : St) (name : String) (data :
         andThen (sendEdges dlv d s b.onSuccess [("trigger", .str "success"), ("value", r)])
           (fun s1 => (s1, .ret (resultTuple r)))
   | .fsm => (s, .ret .none)       -- not used: `FSM._event` is `fsmEvent` (see `callHandler`)
+  | .repeat => (s, .ret .none)    -- not used: `Repeat._event` is `repeatEvent` (see `callHandler`)
 
 /-- `init_regular()` -/
 def initRegular (dlv : Dlv) (b : Blk) (d : Nat) (s : St) : St × Res :=
   match b.kind with
   | .probe => runActs dlv b d s b.initScript
   | .outfunc => setOutput dlv b d s (.bool false)
+  | .repeat => setOutput dlv b d s (.int 0)        -- `Repeat.init_regular`: `self.set_output(0)`
   | _ => (s, .ret .none)          -- input, counter, fsm: the default `init_regular` does nothing
 
 /-- `init_from_value(initdef)` if the block is still uninitialised and has an initdef -/
@@ -411,6 +428,7 @@ def initFromValue (dlv : Dlv) (b : Blk) (d : Nat) (s : St) : St × Res :=
     | .probe => (s, .ret .none)                                  -- no `init_from_value`
     | .outfunc => (s, .ret .none)
     | .fsm => (s, .ret .none)
+    | .repeat => (s, .ret .none)                                 -- no `init_from_value`
     | .input => dlv s d (.name "put") [("value", b.initdef)]    -- `self.event('put', value=value)`
     | .counter => setOutput dlv b d s (Counter.reduce (counterCfg b) (counterCfg b).initdef).toVal
   else (s, .ret .none)
@@ -480,16 +498,24 @@ def fsmData (trigger : String) (st : Nat) (out : Val) : Data :=
 
 inductive WinBody where
   | enter (st : Nat)         -- `self._run_cb('enter', state)`
-  | startTimer (st : Nat)    -- `self._start_timer(…, timed_event)`
+  | startTimer (st : Nat) (duration : Option Val)   -- `self._start_timer(data.get('duration'), timed_event)`
+
+/-- the duration `_start_timer` works with: the `duration` item of the event that caused the transition
+    overrides the state's default (`None` / absent: the default); only "zero delay or not" matters here
+    (numbers; other values – strings with units, INF_TIME – are outside the scenarios) -/
+def effDuration (duration : Option Val) (dflt : Nat) : Nat :=
+  match duration with
+  | some (.atom (.num q _)) => if q ≤ 0 then 0 else 1
+  | _ => dflt
 
 /-- what runs inside the window: the entry action, or `_start_timer` -/
 def winBody (dlv : Dlv) (b : Blk) (d : Nat) (s1 : St) : WinBody → St × Res
   | .enter st => runActs dlv b d s1 (b.enterS.getD st [])
-  | .startTimer st =>
+  | .startTimer st duration =>
     match b.timed.getD st Option.none with
     | Option.none => (s1, .ret .none)
     | some (ev, dur) =>
-      if dur = 0 then dlv s1 d ev []                -- zero delay: `self.event(timed_event)`
+      if effDuration duration dur = 0 then dlv s1 d ev []                -- zero delay: `self.event(timed_event)`
       else if s1.timersEnabled then ({ s1 with timer := upd s1.timer d (some ev) }, .ret .none)
       else (s1, .ret .none)
 
@@ -510,20 +536,20 @@ def chainExit (dlv : Dlv) (b : Blk) (d : Nat) (s : St) (chained : Bool) : St × 
   else (sc, .ret .none)
 
 /-- the `for _ in range(chainlimit)` loop; `chained` = this iteration executes a parked request -/
-def fsmChain (dlv : Dlv) (b : Blk) (d : Nat) (stk0 : List Frame) : Nat → St → Bool → Nat → St × Res
-  | 0, s, _, _ => (s, .exc .circuitError)        -- 'Chained state transition limit reached'
-  | k + 1, s, chained, ns =>
+def fsmChain (dlv : Dlv) (b : Blk) (d : Nat) (stk0 : List Frame) : Nat → St → Bool → Nat → Data → St × Res
+  | 0, s, _, _, _ => (s, .exc .circuitError)        -- 'Chained state transition limit reached'
+  | k + 1, s, chained, ns, data =>
     andThen (chainExit dlv b d s chained) fun s0 =>
     andThen (fsmWindow dlv b d stk0 { s0 with fstate := upd s0.fstate d (some ns) } (.enter ns)) fun s2 =>
     match s2.nextEv d with
-    | some ns' => fsmChain dlv b d stk0 k s2 true ns'
+    | some nx => fsmChain dlv b d stk0 k s2 true nx.1 nx.2     -- `etype, data, newstate = self._next_event`
     | Option.none =>
       match b.timed.getD ns Option.none with
       | Option.none => (s2, .ret .none)
       | some _ =>
-        andThen (fsmWindow dlv b d stk0 s2 (.startTimer ns)) fun s3 =>
+        andThen (fsmWindow dlv b d stk0 s2 (.startTimer ns (data.get? "duration"))) fun s3 =>
         match s3.nextEv d with
-        | some ns' => fsmChain dlv b d stk0 k s3 true ns'
+        | some nx => fsmChain dlv b d stk0 k s3 true nx.1 nx.2
         | Option.none => (s3, .ret .none)
 
 /-- leaving the current state (only when the FSM is initialised): exit callback, on_exit events,
@@ -547,15 +573,47 @@ def fsmFinish (dlv : Dlv) (b : Blk) (d : Nat) (s : St) : St × Res :=
     (s6, .ret (.bool true))
 
 /-- the transition proper (the body of the `try` in `_ctx_event`) -/
-def fsmTransition (dlv : Dlv) (b : Blk) (d : Nat) (stk0 : List Frame) (s : St) (ns : Nat) : St × Res :=
+def fsmTransition (dlv : Dlv) (b : Blk) (d : Nat) (stk0 : List Frame) (s : St) (ns : Nat) (data : Data) :
+    St × Res :=
   andThen (fsmLeave dlv b d s) fun s3 =>
   -- `assert self._next_event is None` (a request left over by a transition that hit the chain limit)
   if (s3.nextEv d).isSome then (s3, .exc .other) else
-  andThen (fsmChain dlv b d stk0 (3 * b.nStates) s3 false ns) fun s4 =>
+  andThen (fsmChain dlv b d stk0 (3 * b.nStates) s3 false ns data) fun s4 =>
   fsmFinish dlv b d s4
 
-/-- `FSM._event` / `_ctx_event` (cond_EVENT callbacks and the `duration` item are not modelled) -/
-def fsmEvent (dlv : Dlv) (b : Blk) (d : Nat) (stk0 : List Frame) (s : St) (et : EType) : St × Res :=
+def CondVal.eval : CondVal → Data → Bool
+  | .const c, _ => c
+  | .item k, data => match data.get? k with | some v => v.truthy | Option.none => false
+
+/-- `self.is_initialized() and not all(self._run_cb('cond', etype))` for a named event with a transition:
+    the `cond_EVENT` callback is user code – it runs INSIDE the handler, the guard of the FSM set, before
+    `_fsm_event_active` is looked at; whatever it sends is an ordinary nested delivery; its exception leaves
+    the handler.  The result is `ret True` (go on) or `ret False` (event rejected). -/
+def fsmCond (dlv : Dlv) (b : Blk) (d : Nat) (s : St) (et : EType) (data : Data) : St × Res :=
+  match et with
+  | .name ev =>
+    if (s.out d).isUndef then (s, .ret (.bool true)) else     -- not initialised: conditions are not consulted
+    match b.conds.find? (·.1 == ev) with
+    | Option.none => (s, .ret (.bool true))
+    | some c => andThen (runActs dlv b d s c.2.1) fun s1 => (s1, .ret (.bool (c.2.2.eval data)))
+  | _ => (s, .ret (.bool true))                              -- Goto: no conditions
+
+/-- an accepted event: parked when a transition of this FSM is in progress, executed otherwise -/
+def fsmAccept (dlv : Dlv) (b : Blk) (d : Nat) (stk0 : List Frame) (s : St) (ns : Nat) (data : Data) :
+    St × Res :=
+  if s.fsmActive d then
+    -- a request made while a transition is in progress (only possible through the window)
+    match s.nextEv d with
+    | some _ => (s, .exc .circuitError)          -- 'Forbidden event multiplication'
+    | Option.none => ({ s with nextEv := upd s.nextEv d (some (ns, data)) }, .ret (.bool true))
+  else
+    let p := fsmTransition dlv b d stk0 { s with fsmActive := upd s.fsmActive d true } ns data
+    -- finally:
+    ({ p.1 with fsmActive := upd p.1.fsmActive d false }, p.2)
+
+/-- `FSM._event` / `_ctx_event` -/
+def fsmEvent (dlv : Dlv) (b : Blk) (d : Nat) (stk0 : List Frame) (s : St) (et : EType) (data : Data) :
+    St × Res :=
   match fsmTarget b (s.fstate d) et with
   | .unknown => (s, .exc .unknownEvent)
   | .badState => (s, .exc .valueError)
@@ -564,15 +622,38 @@ def fsmEvent (dlv : Dlv) (b : Blk) (d : Nat) (stk0 : List Frame) (s : St) (et : 
     andThen (sendEdges dlv d s b.onNotrans [("trigger", .str "notrans"), ("state", .str "")])
       (fun s1 => (s1, .ret (.bool false)))
   | .to ns =>
-    if s.fsmActive d then
-      -- a request made while a transition is in progress (only possible through the window)
-      match s.nextEv d with
-      | some _ => (s, .exc .circuitError)          -- 'Forbidden event multiplication'
-      | Option.none => ({ s with nextEv := upd s.nextEv d (some ns) }, .ret (.bool true))
-    else
-      let p := fsmTransition dlv b d stk0 { s with fsmActive := upd s.fsmActive d true } ns
-      -- finally:
-      ({ p.1 with fsmActive := upd p.1.fsmActive d false }, p.2)
+    let p := fsmCond dlv b d s et data
+    match p.2 with
+    | .exc x => (p.1, .exc x)
+    | .ret v =>
+      if v.truthy then fsmAccept dlv b d stk0 p.1 ns data
+      else (p.1, .ret (.bool false))           -- 'condition not satisfied': the event is rejected
+
+/-! ### `Repeat._event` and the re-sending main task (edzed/blocklib/sblocks1.py)
+
+The timing of the repetitions is the subject of C18 (EdzedModel/Repeat.lean); here only the call
+structure matters: the received event is forwarded SYNCHRONOUSLY, from inside the block's own handler
+("in order not to conceal a possible forbidden loop"), and only then queued for the main task; the
+repetitions are sent by the main task, outside of any handler. -/
+
+/-- `self._repeated_event = Event(dest, etype)`: no filters -/
+def repeatEdge (b : Blk) : Edge := ⟨b.rdest, b.retype, []⟩
+
+/-- `data['orig_source'] = data.get('source')` -/
+def withOrigSource (data : Data) : Data := data.set "orig_source" ((data.get? "source").getD .none)
+
+/-- `{**data, 'repeat': n}` -/
+def withRepeat (data : Data) (n : Nat) : Data := data.set "repeat" (.int n)
+
+/-- `Repeat._event(etype, data)`: another type is ignored (logged once); else `orig_source`,
+    `set_output(0)`, the synchronous forward with `repeat=0`, and – only when that returned –
+    `self._queue.put_nowait(data)` -/
+def repeatEvent (dlv : Dlv) (b : Blk) (d : Nat) (s : St) (et : EType) (data : Data) : St × Res :=
+  if et != b.retype then (s, .ret .none)
+  else
+    andThen (setOutput dlv b d s (.int 0)) fun s1 =>
+    andThen (sendEdges dlv d s1 [repeatEdge b] (withRepeat (withOrigSource data) 0)) fun s2 =>
+    ({ s2 with rcur := upd s2.rcur d (some (withOrigSource data, 0)) }, .ret .none)
 
 /-- the handler's frame: entry, body, exit (normally or by an exception), classification -/
 def inHandler (d : Nat) (stk0 : List Frame) (s3 : St) (data : Data) (body : St → St × Res) : St × Res :=
@@ -588,7 +669,10 @@ def callHandler (dlv : Dlv) (b : Blk) (d : Nat) (stk0 : List Frame) (s3 : St) (e
     (data : Data) : St × Res :=
   if b.kind = .fsm then
     -- no specialised handlers: `self._event(etype, data)`
-    inHandler d stk0 s3 data (fun s4 => fsmEvent dlv b d stk0 s4 et')
+    inHandler d stk0 s3 data (fun s4 => fsmEvent dlv b d stk0 s4 et' data)
+  else if b.kind = .repeat then
+    -- no specialised handlers either: `Repeat._event(etype, data)`
+    inHandler d stk0 s3 data (fun s4 => repeatEvent dlv b d s4 et' data)
   else
   match lookupHandler b.kind et' with
   | Option.none => (s3, .exc .unknownEvent)       -- `self._event()` raises; re-raised, no abort
@@ -648,8 +732,41 @@ def tick (c : Circ) (s : St) (d : Nat) : Option (St × Res) :=
     some (andThen (deliver c c.fuel { s with timer := upd s.timer d Option.none } d ev [])
       (fun s1 => (s1, .ret .none)))
 
-/-- the simulation task has ended: `FSM.stop()` for every block (timers cancelled and disabled) -/
-def stopAll (s : St) : St := { s with timer := fun _ => Option.none, timersEnabled := false }
+/-- `self._count is None or repeat < self._count` -/
+def repeatGoesOn (b : Blk) (rep : Nat) : Bool :=
+  match b.rcount with
+  | Option.none => true
+  | some n => rep < n
+
+/-- what the main task does at a timeout (`Gen.TrR.maintaskIter`, `.timeout true`): `repeat += 1`,
+    `self.set_output(repeat)`, `self._repeated_event.send(self, **{**data, 'repeat': repeat})`
+    – called from the task, i.e. from OUTSIDE of any handler -/
+def resendBody (dlv : Dlv) (b : Blk) (d : Nat) (s : St) (data : Data) (rep : Nat) : St × Res :=
+  andThen (setOutput dlv b d { s with rcur := upd s.rcur d (some (data, rep)) } (.int rep)) fun s1 =>
+  sendEdges dlv d s1 [repeatEdge b] (withRepeat data rep)
+
+/-- an exception in the main task ends it; `AddonAsync._task_monitor` passes the exception itself
+    to `Circuit.abort` (the first error wins: an error inside a handler has aborted already) -/
+def taskOutcome (d : Nat) (p : St × Res) : St × Res :=
+  match p.2 with
+  | .exc .outOfFuel => p
+  | .exc x => ({ p.1.abort x with rcur := upd p.1.rcur d Option.none }, .exc x)
+  | .ret _ => (p.1, .ret .none)
+
+/-- one repetition by the main task of Repeat block `d` (the instant is the implementation's: C18);
+    `none`: the block is not repeating anything (nothing queued, or `count` exhausted) -/
+def resend (c : Circ) (s : St) (d : Nat) : Option (St × Res) :=
+  match c.blocks[d]?, s.rcur d with
+  | some b, some (data, rep) =>
+    if b.kind = .repeat && repeatGoesOn b rep then
+      some (taskOutcome d (resendBody (deliver c c.fuel) b d s data (rep + 1)))
+    else Option.none
+  | _, _ => Option.none
+
+/-- the simulation task has ended: `FSM.stop()` for every block (timers cancelled and disabled),
+    `AddonMainTask.stop_async` (the main tasks are cancelled: nothing is repeated any more) -/
+def stopAll (s : St) : St :=
+  { s with timer := fun _ => Option.none, timersEnabled := false, rcur := fun _ => Option.none }
 
 /-- the loop of `_init_sblocks_sync_2` over the blocks `ds` -/
 def initLoop (c : Circ) : St → List Nat → St × Res
